@@ -7,8 +7,8 @@ TLC judges the observations (C15_Judge).  Python only orchestrates and counts.""
 import copy
 from lib import driver as D
 
-MUTANTS = ["dropLoneBackslash", "noUnicodeEscape", "timeKeepsHiddenFraction"]
-FAMILIES = ["lit-string", "lit-decimal", "lit-temporal"]
+MUTANTS = ["dropLoneBackslash", "noUnicodeEscape", "timeKeepsHiddenFraction", "narrowOffByOne"]
+FAMILIES = ["lit-string", "lit-decimal", "lit-temporal", "proto-precision", "fhir-helpers", "narrow"]
 MIN_CASES = {"quick": 5000, "thorough": 30000}
 
 
@@ -16,7 +16,7 @@ def run(ctx):
     binary = D.build_harness(ctx, "c15")
     D.stage_spec(ctx, params={"Seed": ctx.seed, "ObsFile": ""})
     # role 1 + 2: the laws of FPLiterals on every case of the pools; one case per explored state
-    mc = D.model_check(ctx, "C15_MC", "C15_mc_%s.cfg" % ctx.tier, timeout=600)
+    mc = D.model_check(ctx, "C15_MC", "C15_mc_%s.cfg" % ctx.tier, timeout=600, workers=8)
     cases = mc.records
     per_family = {f: sum(1 for c in cases if c["kind"] == f) for f in FAMILIES}
     D.log("  cases per family: %s" % per_family)
@@ -25,7 +25,7 @@ def run(ctx):
     if len({c["id"] for c in cases}) != len(cases):
         raise D.Inconclusive("generator emitted duplicate case ids")
     for m in (MUTANTS if ctx.tier == "thorough" else MUTANTS[:2] + MUTANTS[3:]):
-        D.mutant_twin(ctx, "C15_MC", "C15_mut_%s.cfg" % m, m, timeout=300)
+        D.mutant_twin(ctx, "C15_MC", "C15_mut_%s.cfg" % m, m, timeout=300, workers=4)
     D.write_ndjson(ctx.path("cases.ndjson"), cases)
     # direction A: replay every case in the real code
     D.run_harness(ctx, binary, ["run", ctx.path("cases.ndjson"), ctx.path("obs.ndjson")], timeout=1500)
